@@ -14,6 +14,8 @@ CONSTANTS
  PublishOnlyLatest = TRUE
  HoldVfsAcrossApply = FALSE
  SnapshotInTask = TRUE
+ CancelledAnsweredOk = FALSE
+ AnsFree = FALSE
  PollWhileWaiting = FALSE
  PreFixF9 = FALSE
  ThirdPartyFatal = FALSE
